@@ -54,16 +54,6 @@ CheckSchema(e) ==
               nm \o " differs from its textbook definition on a non-empty set of inputs (breakpoints and ties included)", "schema/" \o nm \o "/law")
          /\ V("C17", e, ~Sane(t) \/ ~AllExact(e.tree) \/ GridAgrees(e, s.q, F), "evaluate() of " \o nm \o " differs from the textbook value at a grid point", "schema/" \o nm \o "/grid")
 
-\* restriction of pieces to the slice {x | x_i = ref_i for the axes that are not kept}: functions of the kept coordinates
-KeepIdx(mask) == SelectSeq([i \in 1..Len(mask) |-> i], LAMBDA i : mask[i])
-FixSum(a, mask, ref) == LET RECURSIVE G(_) G(i) == IF i = 0 THEN 0 ELSE (IF mask[i] THEN 0 ELSE a[i] * ref[i]) + G(i - 1) IN G(Len(mask))
-Restrict(v, ks) == [j \in 1..Len(ks) |-> v[ks[j]]]
-SlicePieces(F, mask, ref) ==
-    LET ks == KeepIdx(mask) IN
-    {[cons |-> {[a |-> Restrict(c.a, ks), b |-> c.b - FixSum(c.a, mask, ref), s |-> c.s] : c \in p.cons},
-      out |-> IF p.out.u THEN U
-              ELSE Out([r \in 1..Len(p.out.m) |-> Restrict(p.out.m[r], ks)],
-                       [r \in 1..Len(p.out.m) |-> p.out.b[r] + FixSum(p.out.m[r], mask, ref)], p.out.q)] : p \in F}
 \* cache soundness (C05) on a recorded tree: witnesses (logged at scale WQ) have the tree's dimension and satisfy the closed path conditions
 WQ == 100000
 SumAbs(v) == LET RECURSIVE G(_) G(n) == IF n = 0 THEN 0 ELSE Abs(v[n]) + G(n - 1) IN G(Len(v))
